@@ -117,6 +117,7 @@ func runC11(c *core.Ctx) {
 		return
 	}
 	runErrDrop(k, "lang/token", "lang/parse", "lang/ast", "lang/builtin", "lang/render", "lang/generate", "internal/cgen")
+	c11X(c, k)
 	t0 := time.Now()
 	G := buildC11Graph(k.g)
 	c11T("graph", t0)
